@@ -1074,6 +1074,14 @@ func (g *Gen) havocEverything(why string) {
 			g.heap.m["$alloc"] = nr
 			continue
 		}
+		if strings.HasPrefix(n, "held:") {
+			// lock ghost bits (track-locks) survive calls to unknown code: a callee is assumed not to release or
+			// take its caller's locks (recorded as an assumption where track-locks is used)
+			if _, ok := g.heap.m[n]; !ok {
+				g.heap.m[n] = g.heapGet(g.heap, n, g.heapSorts[n])
+			}
+			continue
+		}
 		g.heap.m[n] = g.freshHeap("Hx:", n, g.heapSorts[n])
 	}
 	// heaps first touched later still see their initial constant: mark generation so that they get a fresh one
